@@ -155,6 +155,11 @@ func (w *World) collect() {
 		}
 		for _, m := range cs.v.Drain() {
 			tok := w.canon.OutTokens(m)
+			// every message carries the server's time: without it the receive function of the common library (what the
+			// clients are built on) refuses the message
+			if m.Time.Unix() == 0 {
+				w.canon.Extra = append(w.canon.Extra, fmt.Sprintf("notimestamp %d %s", c, strings.Fields(tok)[0]))
+			}
 			w.emit("D %d %s", c, tok)
 			w.know.observe(c, tok)
 		}
@@ -397,6 +402,9 @@ func (w *World) Handle(c int) (handled bool) {
 	for _, k := range ids {
 		for _, m := range w.conns[k].v.Drain() {
 			tok := w.canon.OutTokens(m)
+			if m.Time.Unix() == 0 {
+				w.canon.Extra = append(w.canon.Extra, fmt.Sprintf("notimestamp %d %s", k, strings.Fields(tok)[0]))
+			}
 			lines = append(lines, fmt.Sprintf("D %d %s", k, tok))
 			w.know.observe(k, tok)
 		}
